@@ -123,4 +123,35 @@ func (m *messageSenderImpl) messageSenderForPeer(ctx context.Context, p peer.ID)
   modifies *
   ensures [a-sender-or-an-error] imp(result1 == nil, result0 != nil)
   ghost at before call(delete): assert(held(m.smlk) && $arg0 == m.strmap && $arg1 == p && has(m.strmap, p) && m.strmap[p] == ms)
+
+# ---- the two entry points (C10, C11) ---------------------------------------------
+# The exchange goes over the sender of THAT peer, with the caller's message; the
+# reply handed back is the reply of that exchange, unchanged; an error of the
+# exchange is reported (never swallowed into a nil reply with nil error).
+func (m *messageSenderImpl) SendRequest(ctx context.Context, p peer.ID, pmes *pb.Message) (*pb.Message, error)
+  props C10 C11
+  ghostvar $ms *peerMessageSender = nil
+  ghostvar $r *pb.Message = nil
+  ghostvar $err error = nil
+  ghostvar $sent bool = false
+  modifies *
+  ensures [reply-of-this-exchange] imp(result1 == nil, $sent && $err == nil && result0 == $r)
+  ensures [exchange-error-reported] imp($sent && $err != nil, result1 != nil && result0 == nil)
+  ghost at before call(messageSenderForPeer): assert($arg1 == p)
+  ghost at call(messageSenderForPeer): $ms = $ret0
+  ghost at before call(SendRequest): assert($recv == $ms && $arg1 == pmes && ctxRoot($arg0) == old(ctxRoot(ctx)))
+  ghost at call(SendRequest): $r = $ret0; $err = $ret1; $sent = true
+
+func (m *messageSenderImpl) SendMessage(ctx context.Context, p peer.ID, pmes *pb.Message) error
+  props C10 C11
+  ghostvar $ms *peerMessageSender = nil
+  ghostvar $err error = nil
+  ghostvar $sent bool = false
+  modifies *
+  ensures [sent-or-error] imp(result == nil, $sent && $err == nil)
+  ensures [send-error-reported] imp($sent && $err != nil, result != nil)
+  ghost at before call(messageSenderForPeer): assert($arg1 == p)
+  ghost at call(messageSenderForPeer): $ms = $ret0
+  ghost at before call(SendMessage): assert($recv == $ms && $arg1 == pmes && ctxRoot($arg0) == old(ctxRoot(ctx)))
+  ghost at call(SendMessage): $err = $ret0; $sent = true
 @*/
